@@ -142,6 +142,9 @@ var (
 var lies = []lie{
 	{name: "control", class: "control", build: func(*rand.Rand, *big.Int, int, proofLayout) hooks { return hooks{} }},
 
+	// no deviation, but the proof comes from the adversary's own prover: must reproduce the genuine proof and be accepted
+	{name: "control/own-prover", class: "control", build: func(*rand.Rand, *big.Int, int, proofLayout) hooks { return hooks{OwnProof: true} }},
+
 	// ---- solving hint: exported values altered, genuine proof (of the true assignment)
 	{name: "out-one+1", class: "outputs", build: outsLie(oneOutPlus1)},
 	{name: "out-one-random", class: "outputs", build: outsLie(func(rng *rand.Rand, p *big.Int, _ int, o []*big.Int) {
